@@ -13,10 +13,10 @@ dir=${pkgline%_test}
 cp $demo $wt/$dir/zz_m${k}_demo_test.go
 run=$(grep -m1 -oE 'Test[A-Za-z0-9_]+' $demo | head -1)
 pat=$(grep -oE '^func (Test[A-Za-z0-9_]+)' $demo | awk '{print $2}' | paste -sd'|')
-r0=$(go1.26.8 test -vet=off -count=1 -run "^($pat)\$" ./$dir/ 2>&1 | tail -3 | tr '\n' ' ')
+r0=$(go1.26.8 test $RACEFLAG -vet=off -count=1 -run "^($pat)\$" ./$dir/ 2>&1 | tail -3 | tr '\n' ' ')
 git apply $out/m$k.diff || { echo "$id m$k: patch does not apply"; exit 2; }
 b=$(go1.26.8 build $(go1.26.8 list ./... | grep -v cmd/gmrtd-reader) 2>&1 | tail -2 | tr '\n' ' ')
-r1=$(go1.26.8 test -vet=off -count=1 -run "^($pat)\$" ./$dir/ 2>&1 | tail -3 | tr '\n' ' ')
+r1=$(go1.26.8 test $RACEFLAG -vet=off -count=1 -run "^($pat)\$" ./$dir/ 2>&1 | tail -3 | tr '\n' ' ')
 rm -f $wt/$dir/zz_m${k}_demo_test.go
 suite=$(go1.26.8 test -vet=off -count=1 $(go1.26.8 list ./... | grep -v cmd/gmrtd-reader) 2>&1 | grep -v "^ok\|no test files" | tail -5 | tr '\n' ' ')
 git checkout -q -- . ; git clean -fdq
